@@ -1437,7 +1437,8 @@ func c03Metrics(c *Ctx) {
 					if q.String() == "100" {
 						q = a.Args[1]
 					}
-					good = q.Op == "bin" && q.Aux == "/" && strings.Contains(q.Args[0].String(), sp.part) && !strings.Contains(q.Args[1].String(), "100")
+					den := q.Args[1].String()
+					good = q.Op == "bin" && q.Aux == "/" && strings.Contains(q.Args[0].String(), sp.part) && (strings.Contains(den, "occupiedBits") || strings.Contains(den, "executionCount"))
 				}
 			}
 			if !good {
